@@ -65,6 +65,12 @@ def specs(tier):
     tied_masks['A'] = {2: [('ab', .6), ('cd', .4)], 3: [('abc', 1.0)]}
     tied_masks['C'] = {2: [('LL', .4), ('UL', .3), ('LU', .3)], 3: [('LLL', .25), ('ULL', .25), ('LUL', .25), ('LLU', .25)]}
     cands.append((tied_masks, [('A2', .5), ('A3', .3), ('D1', .2)]))
+    # lengths of three digits next to lengths that are their first one / two digits (a junk line of 100 digits in the training list is enough)
+    wide = dict(t0)
+    wide['D'] = {1: [('7', 1.0)], 10: [('1234567890', .6), ('0987654321', .4)], 100: [('3074185296' * 10, 1.0)], 101: [('5' * 101, .5), ('6' * 101, .5)]}
+    wide['A'] = {1: [('a', 1.0)], 10: [('abcdefghij', 1.0)], 105: [('k' * 105, 1.0)]}
+    wide['C'] = {1: [('L', .5), ('U', .5)], 10: [('L' * 10, .6), ('U' + 'L' * 9, .4)], 105: [('L' * 105, 1.0)]}
+    cands.append((wide, [('D10', .3), ('D100', .25), ('A105', .15), ('D1', .1), ('D101', .1), ('A10', .05), ('A1', .05)]))
     if tier == 'thorough':
         cands += [(big, [('A1', .3), ('A3', .3), ('D1', .2), ('D2', .1), ('K4', .1)]), (t1, [('A1', .5), ('A2', .25), ('D1', .125), ('O1', .125)])]
         # every ordered pair / every ascending triple of word classes of the tie-rich terminal set, with distinct and with tied class probabilities
